@@ -2,7 +2,7 @@
 from .. import partition_step as PS
 
 
-def feed(ctx, prefixes):
+def feed(ctx, prefixes, rename=None):
     """Run the step analysis and record the obligations whose rule starts with one of `prefixes`.
     Failed instances are aggregated into one finding per (rule, class, construct)."""
     model = ctx.model
@@ -10,7 +10,9 @@ def feed(ctx, prefixes):
     groups = {}
     n = 0
     for r in records:
-        if not any(r["rule"].startswith(p) for p in prefixes):
+        if rename and r["rule"] in rename:
+            r = dict(r, rule=rename[r["rule"]])
+        elif not any(r["rule"].startswith(p) for p in prefixes):
             continue
         n += 1
         cls = model.classes[r["cls"]]
